@@ -350,6 +350,15 @@ impl<'p, T> IntoIterator for &'p RawPinnedPool<T> {
     }
 }
 
+#[cfg(folo_verif)]
+impl<T: 'static> RawPinnedPool<T> {
+    /// Verification hook: read-only internal consistency probe.
+    #[doc(hidden)]
+    pub fn __verif_check(&self) -> Result<(), String> {
+        self.inner.__verif_check()
+    }
+}
+
 #[cfg(test)]
 #[allow(
     clippy::indexing_slicing,
